@@ -72,8 +72,13 @@ func baseTime(c *hlib.RunCtx) time.Time {
 	return time.Date(2024, 1, 1, 0, 0, 0, 0, time.UTC).Add(time.Duration(day)*24*time.Hour + time.Duration(sec)*time.Second)
 }
 
+var h1DelayClasses = []string{"fs:mmap", "fs:fstat", "fs:open", "fs:writeat", "CompareAndSwap @file.go", "Load @file.go", "f.current.Store", "f.current.Load",
+	"s.bits.CompareAndSwap", "write c.ptr", "read c.ptr", "sys:munmap", "next.Store", "f.mu.Lock", "f.counters"}
+
 func chooseStrategy(c *hlib.RunCtx, s *simrt.Sim, horizon int) {
-	switch c.Tape.Draw(4) {
+	switch c.Tape.Draw(5) {
+	case 4:
+		s.SetDelay(h1DelayClasses, 1+c.Tape.Rng.Intn(3))
 	case 0:
 		s.Strat = simrt.StratUniform
 	case 1:
